@@ -48,3 +48,19 @@ Definition list_defaults_plain (s : tsig) : bool :=
                     end) (s_params s).
 
 Definition frag_guard (s : tsig) : bool := no_required_positional s && list_defaults_plain s.
+
+(** ** The signatures inside the wide fragment (Proofs/C01_wide_final.v):
+    required positionals allowed *)
+Definition counters_plain (s : tsig) : bool :=
+  forallb (fun p => let a := arg_of_param s p in
+                    negb (a_incrementable a)
+                    || match a_default a with AInt _ | ABool _ => true | _ => false end)
+          (s_params s).
+
+Definition positionals_sane (s : tsig) : bool :=
+  forallb (fun p => let a := arg_of_param s p in
+                    negb (a_positional a && aval_is_none (a_default a) && negb (takes_value a)))
+          (s_params s).
+
+Definition frag_guard_w (s : tsig) : bool :=
+  list_defaults_plain s && counters_plain s && positionals_sane s.
